@@ -27,7 +27,7 @@ JNfaToDfa(e) ==
       valid == ValidDFA(D)
   IN Bad("valid_total_dfa", ~valid)
      \cup Bad("same_alphabet", D.S # N.S)
-     \cup Bad("initial_is_closure", ToSet(e.q0label) # EClosure(N, {N.q0}))
+     \cup Bad("initial_is_closure", ~\E c \in ToSet(e.q0cands) : ToSet(c) = EClosure(N, {N.q0}))
      \cup (IF valid THEN Bad("all_reachable", Reach(D) # D.Q) \cup Bad("equivalent_exact", ~FaEquiv(N, D))
            ELSE {})
 
